@@ -10,15 +10,15 @@ import (
 // fields and package variables it may read / write, whether it may store
 // through slice elements or other pointers, and which functions it may call.
 type ModSet struct {
-	Writes   map[*types.Var]bool // struct fields stored
-	Reads    map[*types.Var]bool // struct fields loaded (or address escaping)
-	GWrites  map[*ssa.Global]bool
-	GReads   map[*ssa.Global]bool
-	Index    bool // may store through slice/array elements not local to it
-	Deref    bool // may store through a pointer parameter / free variable
-	External bool // may call code outside the package (incl. application callbacks)
+	Writes     map[*types.Var]bool // struct fields stored
+	Reads      map[*types.Var]bool // struct fields loaded (or address escaping)
+	GWrites    map[*ssa.Global]bool
+	GReads     map[*ssa.Global]bool
+	Index      bool         // may store through slice/array elements not local to it
+	Deref      bool         // may store through a pointer parameter / free variable
+	External   bool         // may call code outside the package (incl. application callbacks)
 	FreeStores map[int]bool // indices of the function's own free variables it stores through (closures)
-	Callees  map[*ssa.Function]bool
+	Callees    map[*ssa.Function]bool
 }
 
 func newModSet() *ModSet {
